@@ -289,6 +289,10 @@ fn gen13(seed: u64, idx: u64, _t: Tier) -> J {
 		c.tty = idx % 7 == 3;
 	}
 	c.params.insert("exhaustive".into(), json!(exhaustive));
+	if !exhaustive && idx % 20 == 19 {
+		c.params.insert("fidelity_pty".into(), json!(true));
+		c.tty = true;
+	}
 	c.to_json()
 }
 
@@ -296,6 +300,53 @@ fn eval13(case: &J) -> Eval {
 	let c = parse_case(case);
 	let mut ev = Eval::default();
 	let p = parse_args(&c.args);
+	if c.params.get("fidelity_pty").is_some() && p.class == Class::Run && !p.ambiguous {
+		// Fidelity run: stdout is a real pseudo-terminal.
+		ev.key = key_of(case);
+		ev.trace = hash_str("pty");
+		let mut real_case = c.clone();
+		real_case.wsched = Sched::whole();
+		for f in &mut real_case.files {
+			f.plan = None;
+		}
+		let o = procsim::run_real(&real_case, &procsim::Real::Pty);
+		ev.execs += 1;
+		ev.count("fidelity.pty", 1);
+		if !proc_invariants(&mut ev, &c, &o) {
+			return ev;
+		}
+		let mut model = c.clone();
+		model.nommap = false;
+		for f in &mut model.files {
+			f.plan = None;
+		}
+		let ex = expect_run(&model, &p);
+		if ex.lib_panic.is_some() {
+			return ev;
+		}
+		let got: Vec<u8> = o.stdout.iter().copied().filter(|b| *b != b'\r').collect();
+		if p.to == Fmt::Msgpack {
+			if o.code != Some(1) || !got.is_empty() {
+				ev.violate("tty/msgpack-written", format!("xt {:?}: stdout is a REAL terminal and the target is MessagePack: ended with {}, {} bytes reached the terminal", c.args, o.status(), got.len()));
+			}
+		} else if o.code != Some(ex.exit) {
+			ev.violate(format!("exit/run-expected-{}-got-{}", ex.exit, o.code.unwrap_or(-1)), format!("xt {:?}: on a real terminal: expected exit {}, got {}", c.args, ex.exit, o.status()));
+		} else if ex.exit == 0 && p.to != Fmt::Msgpack {
+			let want: Vec<u8> = ex.maximal.iter().copied().filter(|b| *b != b'\r').collect();
+			// The line discipline may alter control characters; compare only printable ASCII outputs.
+			if want.iter().all(|b| *b == b'\n' || (0x20..0x7f).contains(b)) && got != want {
+				ev.violate("stdout/incomplete-on-success", format!("xt {:?}: on a real terminal stdout carried {:?}, expected {:?}", c.args, show(&got), show(&want)));
+			}
+		}
+		// The stub (isatty answered by the interposer, same plan-free inputs) must agree on the exit status.
+		let so = procsim::run(&model);
+		ev.execs += 1;
+		if so.code != o.code || so.signal != o.signal {
+			ev.violate("harness/fidelity-pty-disagrees", format!("xt {:?}: real pty: {}; isatty stub: {}", c.args, o.status(), so.status()));
+		}
+		ev.nontrivial = true;
+		return ev;
+	}
 	let o = procsim::run(&c);
 	procsim::write_plan_note(&mut ev, &c, &o);
 	ev.count("exhaustive.block", u64::from(c.params.get("exhaustive").and_then(J::as_bool).unwrap_or(false)));
@@ -493,6 +544,12 @@ fn gen14(seed: u64, idx: u64, _t: Tier) -> J {
 	if r.chance(1, 4) {
 		c.wsched = gen::gen_sched(&mut r, 256);
 	}
+	if idx % 25 == 24 {
+		if let Some(f) = c.files.first() {
+			c.params.insert("fidelity_fifo".into(), json!(f.name));
+			c.params.insert("fifo_chunk".into(), json!(r.log_range(1, 5000)));
+		}
+	}
 	c.to_json()
 }
 
@@ -500,6 +557,43 @@ fn eval14(case: &J) -> Eval {
 	let c = parse_case(case);
 	let mut ev = Eval::default();
 	let p = parse_args(&c.args);
+	if let Some(name) = c.params.get("fidelity_fifo").and_then(J::as_str) {
+		// Fidelity run: the first input really is a FIFO fed in pieces; the model treats it as a reader.
+		ev.key = key_of(case);
+		ev.trace = hash_str("fifo");
+		if p.class != Class::Run || p.inputs.iter().filter(|a| *a == name).count() != 1 {
+			return ev;
+		}
+		let chunk = c.params.get("fifo_chunk").and_then(J::as_u64).unwrap_or(7) as usize;
+		let mut model = c.clone();
+		model.nommap = true; // every input is read through a reader in the model
+		let mut real_case = c.clone();
+		real_case.wsched = Sched::whole();
+		let o = procsim::run_real(&real_case, &procsim::Real::Fifo(name.to_owned(), chunk));
+		ev.execs += 1;
+		ev.count("fidelity.fifo", 1);
+		if !proc_invariants(&mut ev, &c, &o) {
+			return ev;
+		}
+		let ex = expect_run(&model, &p);
+		if ex.lib_panic.is_some() {
+			return ev;
+		}
+		if ex.exit == 0 && (o.code != Some(0) || o.stdout != ex.maximal) {
+			ev.violate("library-agreement/fifo", format!("xt {:?}: input {name} is a REAL FIFO written in {chunk}-byte pieces; the library (reader mode) gives {} bytes and exit 0, the binary ended with {} and {} bytes; stderr {:?}", c.args, ex.maximal.len(), o.status(), o.stdout.len(), show(&o.stderr)));
+		}
+		if ex.exit != 0 && o.code == Some(0) {
+			ev.violate("library-agreement/cli-succeeds", format!("xt {:?}: real FIFO input: the library fails ({}), the binary exited 0", c.args, ex.failure_kind));
+		}
+		// The stubbed equivalent (mmap denied) must agree on the exit status.
+		let so = procsim::run(&model);
+		ev.execs += 1;
+		if so.code != o.code || so.signal != o.signal {
+			ev.violate("harness/fidelity-fifo-disagrees", format!("xt {:?}: real FIFO: {}; mmap-denied stub: {}", c.args, o.status(), so.status()));
+		}
+		ev.nontrivial = true;
+		return ev;
+	}
 	let o = procsim::run(&c);
 	procsim::write_plan_note(&mut ev, &c, &o);
 	ev.key = key_of(case);
@@ -852,13 +946,91 @@ fn gen16(seed: u64, idx: u64, _t: Tier) -> J {
 		c.wsched = gen::gen_sched(&mut r, 8192);
 	}
 	c.nommap = r.chance(1, 5);
+	if idx % 25 == 24 {
+		// Fidelity run: the real kernel object instead of the interposer.
+		c.params.insert("fidelity".into(), json!(if r.chance(2, 3) { "pipe" } else { "devfull" }));
+	}
 	c.to_json()
+}
+
+/// Fidelity run of C16: a real closing pipe / a real full device, compared with the stubbed run.
+fn fidelity16(ev: &mut Eval, c: &ProcCase, p: &procsim::Parsed, what: &str) {
+	let ex = expect_run(c, p);
+	if ex.lib_panic.is_some() || ex.exit != 0 {
+		return;
+	}
+	let args = format!("{:?}", c.args);
+	let mut real_case = c.clone();
+	real_case.wfail = None;
+	real_case.wsched = Sched::whole();
+	match what {
+		"pipe" => {
+			// The consumer takes k bytes and leaves while more than a pipe capacity remains.
+			if ex.maximal.len() < 80_000 {
+				return;
+			}
+			let k = c.wfail.map_or(0, |w| w.0).min(ex.maximal.len() - 75_000);
+			let o = procsim::run_real(&real_case, &procsim::Real::ClosingPipe(k));
+			ev.execs += 1;
+			ev.count("fidelity.pipe", 1);
+			if !proc_invariants(ev, c, &o) {
+				return;
+			}
+			if o.signal != Some(13) {
+				ev.violate(format!("epipe/not-sigpipe/{}", o.status().replace(' ', "-")), format!("xt {args}: REAL pipe, reader closed after {k} of {} bytes: xt ended with {} instead of SIGPIPE; stderr {:?}", ex.maximal.len(), o.status(), show(&o.stderr)));
+			}
+			if !o.stderr.is_empty() {
+				ev.violate("epipe/stderr-not-empty", format!("xt {args}: REAL pipe closed after {k} bytes; stderr holds {:?}", show(&o.stderr)));
+			}
+			if o.stdout != ex.maximal[..k] {
+				ev.violate("accepted-bytes", format!("xt {args}: REAL pipe: the {k} bytes the reader took are not the first {k} expected bytes"));
+			}
+			// The stub must tell the same story.
+			let mut stub = real_case.clone();
+			stub.wfail = Some((k, EPIPE));
+			let so = procsim::run(&stub);
+			ev.execs += 1;
+			if (so.signal == Some(13)) != (o.signal == Some(13)) || so.stderr.is_empty() != o.stderr.is_empty() {
+				ev.violate("harness/fidelity-pipe-disagrees", format!("xt {args}: real closing pipe at {k}: {} / stderr {:?}; interposer EPIPE at {k}: {} / stderr {:?}", o.status(), show(&o.stderr), so.status(), show(&so.stderr)));
+			}
+		}
+		_ => {
+			let o = procsim::run_real(&real_case, &procsim::Real::DevFull);
+			ev.execs += 1;
+			ev.count("fidelity.devfull", 1);
+			if !proc_invariants(ev, c, &o) || ex.maximal.is_empty() {
+				return;
+			}
+			if o.code != Some(1) {
+				ev.violate(format!("write-error/{}", o.status().replace(' ', "-")), format!("xt {args}: stdout is /dev/full ({} bytes of output) but xt ended with {}", ex.maximal.len(), o.status()));
+			}
+			if !text(&o.stderr).starts_with("xt error") {
+				ev.violate("write-error/no-message", format!("xt {args}: stdout is /dev/full; stderr {:?} does not begin with 'xt error'", show(&o.stderr)));
+			}
+			let mut stub = real_case.clone();
+			stub.wfail = Some((0, ENOSPC));
+			let so = procsim::run(&stub);
+			ev.execs += 1;
+			if so.code != o.code || so.signal != o.signal {
+				ev.violate("harness/fidelity-devfull-disagrees", format!("xt {args}: /dev/full: {}; interposer ENOSPC at 0: {}", o.status(), so.status()));
+			}
+		}
+	}
+	ev.nontrivial = true;
 }
 
 fn eval16(case: &J) -> Eval {
 	let c = parse_case(case);
 	let mut ev = Eval::default();
 	let p = parse_args(&c.args);
+	if let Some(what) = c.params.get("fidelity").and_then(J::as_str) {
+		ev.key = key_of(case);
+		ev.trace = hash_str(what);
+		if p.class == Class::Run {
+			fidelity16(&mut ev, &c, &p, what);
+		}
+		return ev;
+	}
 	let o = procsim::run(&c);
 	procsim::write_plan_note(&mut ev, &c, &o);
 	ev.key = key_of(case);
